@@ -1,7 +1,7 @@
 (* C08/Properties.v — property theorems only.  Each is closed by [exact lemma],
    pinned by [Check name : statement] and followed by [Print Assumptions]. *)
 From Coq Require Import Sorting.Sorted Sorting.Permutation.
-From RM Require Import C08.Model C08.Proofs C08.WinModel C08.WinProofs.
+From RM Require Import C08.Model C08.Proofs C08.WinModel C08.WinProofs C08.Driver Gen.C08Tables C08.Tie.
 Open Scope Z_scope.
 
 (* Building never fails: the final RangeMap::try_from_iter(vec).unwrap() discards
@@ -149,6 +149,59 @@ Theorem c08_win_isolated_complete : forall p (la : list winrec) w lb r t x,
 Proof. exact win_isolated_complete. Qed.
 Print Assumptions c08_win_isolated_complete.
 
+(* ---- the tie to the source: Gen/C08Tables.v is regenerated from the Rust code on every run
+   (translate/c08_tables.py); these theorems are about the generated definitions. ---- *)
+
+(* all seven size-based memory_range() constructors: for every u64 base and size, in either build profile, neither
+   the `- 1` nor Range::new's ordering assertion can fire, and the result is the model's mk_range *)
+Theorem c08_gen_memory_ranges : forall p base size, u64 base -> u64 size ->
+  g_mr_Function p base size = Ret (mk_range base size) /\
+  g_mr_StackInfoCfi p base size = Ret (mk_range base size) /\
+  g_mr_StackInfoWin p base size = Ret (mk_range base size) /\
+  g_mr_MinidumpModule p base size = Ret (mk_range base size) /\
+  g_mr_MinidumpUnloadedModule p base size = Ret (mk_range base size) /\
+  g_mr_MinidumpMemoryBase p base size = Ret (mk_range base size) /\
+  g_mr_MinidumpMemoryInfo p base size = Ret (mk_range base size).
+Proof. exact g_mr_all_eq. Qed.
+Print Assumptions c08_gen_memory_ranges.
+
+Theorem c08_gen_memory_range_maps : forall lo hi,
+  g_mr_MinidumpLinuxMapInfo lo hi = Ret (mk_range_maps lo hi).
+Proof. exact g_mr_maps_eq. Qed.
+Print Assumptions c08_gen_memory_range_maps.
+
+(* line records: the filter keeps exactly the non-empty ones, and for those `size as u64 - 1` cannot trap *)
+Theorem c08_gen_memory_range_line : forall p base size, u64 base -> u64 size ->
+  g_line_keep size = (0 <? size) /\
+  (g_line_keep size = true -> g_mr_line p base size = Ret (mk_range_line base size)).
+Proof. exact g_line_all. Qed.
+Print Assumptions c08_gen_memory_range_line.
+
+(* both copies of into_rangemap_safe, as generated, never reach the unwrap and compute the model's table *)
+Theorem c08_gen_build_total :
+  forall (V : Type) (eqb : V -> V -> bool),
+  (forall l : list (option range * V), wf_entries l ->
+     g_build_traits eqb l = Ret (into_rangemap_safe eqb l)) /\
+  (forall l : list (range * V), wf_ranges l ->
+     g_build_parser eqb l = Ret (into_rangemap_safe_p eqb l)) /\
+  (forall acc rv, g_merge_step_traits eqb acc rv = merge_step eqb acc rv) /\
+  (forall acc rv, g_merge_step_parser eqb acc rv = merge_step eqb acc rv).
+Proof. exact g_build_all. Qed.
+Print Assumptions c08_gen_build_total.
+
+(* the index-valued builders and the STACK WIN pipeline, as generated, are the model's *)
+Theorem c08_gen_builders : 
+  (forall ranges, g_build_indexed ranges = build_indexed ranges) /\
+  (forall p acc w, g_insert_win p acc w = insert_win p acc w) /\
+  (forall p l, g_win_table p l = win_table p l).
+Proof. exact g_builders_all. Qed.
+Print Assumptions c08_gen_builders.
+
+(* hence: the generated STACK WIN pipeline never fails, for every list of records, in either profile *)
+Theorem c08_gen_win_total : forall p (l : list winrec), wf_recs l -> exists t, g_win_table p l = Ret t.
+Proof. exact g_win_table_total. Qed.
+Print Assumptions c08_gen_win_total.
+
 (* ---- non-vacuity: the hypotheses are met by concrete, non-trivial inputs ---- *)
 Example c08_nonvacuous_wf :
   wf_entries [(mk_range 18446744073709551610 6, 1); (mk_range 0 0, 2); (mk_range 5 10, 3);
@@ -184,3 +237,11 @@ Proof.
   cbv zeta. split; [|split; vm_compute; reflexivity].
   repeat constructor; cbn; try discriminate.
 Qed.
+
+Example c08_nonvacuous_gen :
+  g_mr_MinidumpModule Debug 18446744073709551610 5 = Ret (Some (18446744073709551610, 18446744073709551614)) /\
+  g_mr_MinidumpModule Debug 18446744073709551610 6 = Ret None /\
+  g_mr_line Release 18446744073709551610 6 = Ret (Some (18446744073709551610, 18446744073709551615)) /\
+  g_build_indexed [mk_range 5 10; mk_range 0 0; mk_range 7 2; mk_range 20 1] = Ret [((5, 14), 0); ((20, 20), 3)] /\
+  g_win_table Release [mkW 0 10 1; mkW 1 9 2; mkW 4 6 3] = Ret [((0, 0), mkW 0 1 1); ((1, 3), mkW 1 3 2); ((4, 9), mkW 4 6 3)].
+Proof. repeat split; vm_compute; reflexivity. Qed.
